@@ -7,30 +7,69 @@ namespace Yalafi
 
 /-! ### get_txt_pos -/
 
+theorem tokPositions_length (t : Tok) : (tokPositions t).length = t.txt.length := by
+  unfold tokPositions; split <;> simp
+
 theorem getTxtPos_length (ts : List Tok) : (getTxtPos ts).1.length = (getTxtPos ts).2.length := by
-  sorry
+  induction ts with
+  | nil => simp [getTxtPos]
+  | cons t ts ih => simp [getTxtPos, tokPositions_length, ih]
 
 theorem getTxtPos_append (a b : List Tok) :
     getTxtPos (a ++ b) = ((getTxtPos a).1 ++ (getTxtPos b).1, (getTxtPos a).2 ++ (getTxtPos b).2) := by
-  sorry
+  induction a with
+  | nil => simp [getTxtPos]
+  | cons t ts ih => simp [getTxtPos, ih]
+
+theorem tokPositions_range (n : Nat) (t : Tok) (h : t.txt ≠ [] → TokInRange n t) :
+    ∀ p ∈ tokPositions t, p < n := by
+  intro p hp
+  unfold tokPositions at hp
+  by_cases he : t.txt = []
+  · simp [he] at hp
+  · have := h he
+    unfold TokInRange at this
+    split at hp
+    · simp at hp; omega
+    · simp at hp
+      obtain ⟨a, ha, rfl⟩ := hp
+      have := this.2 (by simpa using ‹¬ t.fix = true›)
+      omega
 
 /-- every emitted position is inside the source if every token is in range -/
 theorem getTxtPos_range (n : Nat) (ts : List Tok) (h : ∀ t ∈ ts, t.txt ≠ [] → TokInRange n t) :
     ∀ p ∈ (getTxtPos ts).2, p < n := by
-  sorry
+  induction ts with
+  | nil => simp [getTxtPos]
+  | cons t ts ih =>
+    intro p hp
+    simp only [getTxtPos, List.mem_append] at hp
+    rcases hp with hp | hp
+    · exact tokPositions_range n t (h t (by simp)) p hp
+    · exact ih (fun t ht => h t (by simp [ht])) p hp
 
 /-- a non-fixed token contributes `(txt[i], pos+i)`, a fixed one `(txt[i], pos)` -/
 theorem getTxtPos_single (t : Tok) :
     getTxtPos [t] = (t.txt, if t.fix then List.replicate t.txt.length t.pos
                              else (List.range t.txt.length).map (t.pos + ·)) := by
-  sorry
+  simp [getTxtPos, tokPositions]
 
 /-! ### latex_error -/
 
 /-- the mark is complete: the texts of the returned tokens concatenate to ' ' ++ mark ++ ' ' (…) -/
 theorem latexErrorToks_text (T : Tables) (err : Str) (pos n : Nat) :
     (getTxtPos (latexErrorToks T err pos n)).1 = errMark T err := by
-  sorry
+  unfold latexErrorToks
+  simp only []
+  split
+  · simp [getTxtPos, List.take_append_drop]
+  · rename_i h
+    simp only [getTxtPos, List.append_nil]
+    apply List.take_of_length_le
+    omega
+
+theorem errMark_length_pos (T : Tables) (err : Str) : 2 ≤ (errMark T err).length := by
+  simp [errMark]; omega
 
 /-- all mark tokens are fixed text tokens, the first one sits at `pos`, and for `pos < n`
     all are in range — also when the mark is longer than the rest of the text -/
@@ -38,15 +77,114 @@ theorem latexErrorToks_inv (T : Tables) (hm : T.mark ≠ []) (err : Str) (pos n 
     (∀ t ∈ latexErrorToks T err pos n, t.fix = true ∧ t.kind = .text ∧ t.pos < n) ∧
     (latexErrorToks T err pos n).head?.map (·.pos) = some pos ∧
     ∀ p ∈ (getTxtPos (latexErrorToks T err pos n)).2, p < n := by
-  sorry
+  have hl := errMark_length_pos T err
+  have _ := hm
+  unfold latexErrorToks
+  simp only []
+  split
+  · refine ⟨?_, by simp, ?_⟩
+    · intro t ht
+      simp at ht
+      rcases ht with rfl | rfl <;> simp <;> omega
+    · intro p hp'
+      simp [getTxtPos, tokPositions] at hp'
+      omega
+  · refine ⟨?_, by simp, ?_⟩
+    · intro t ht
+      simp at ht
+      subst ht; simp; omega
+    · intro p hp'
+      simp [getTxtPos, tokPositions] at hp'
+      omega
 
 /-- when the mark fits, every character of it maps to `pos`; otherwise the overflow maps to
     the last position that is still inside the text -/
 theorem latexErrorToks_positions (T : Tables) (err : Str) (pos n : Nat) (hp : pos < n) :
     ∀ p ∈ (getTxtPos (latexErrorToks T err pos n)).2, p = pos ∨ p = pos + (n - pos) - 1 := by
-  sorry
+  unfold latexErrorToks
+  simp only []
+  split
+  · intro p hp'
+    simp [getTxtPos, tokPositions] at hp'
+    omega
+  · intro p hp'
+    simp [getTxtPos, tokPositions] at hp'
+    omega
 
 /-! ### line / column of a diagnostic -/
+
+theorem idxOf_le (f : Char → Bool) (l : Str) : idxOf f l ≤ l.length := by
+  induction l with
+  | nil => simp [idxOf]
+  | cons c cs ih => simp only [idxOf]; split <;> simp; omega
+
+theorem idxOf_lt_of_any (f : Char → Bool) (l : Str) (h : l.any f = true) :
+    idxOf f l < l.length := by
+  induction l with
+  | nil => simp at h
+  | cons c cs ih =>
+    simp only [idxOf]; split
+    · simp
+    · rename_i hc
+      simp only [List.any_cons, hc, Bool.false_or] at h
+      have := ih h
+      simp; omega
+
+theorem idxOf_get (f : Char → Bool) (l : Str) (h : idxOf f l < l.length) :
+    f (l[idxOf f l]) = true := by
+  induction l with
+  | nil => simp at h
+  | cons c cs ih =>
+    simp only [idxOf] at h ⊢
+    split
+    · simpa
+    · rename_i hc
+      simp only [hc] at h
+      simp only [List.getElem_cons_succ]
+      exact ih (by simpa using h)
+
+theorem idxOf_take_not (f : Char → Bool) (l : Str) : ∀ x ∈ l.take (idxOf f l), f x = false := by
+  induction l with
+  | nil => simp
+  | cons c cs ih =>
+    simp only [idxOf]; split
+    · simp
+    · rename_i hc
+      intro x hx
+      simp only [List.take_succ_cons, List.mem_cons] at hx
+      rcases hx with rfl | hx
+      · simpa using hc
+      · exact ih x hx
+
+theorem rfindNl_spec (s : Str) : match rfindNl s with
+    | some i => i < s.length ∧ s[i]? = some nl ∧ countNl (s.drop (i+1)) = 0
+    | none => countNl s = 0 := by
+  unfold rfindNl
+  by_cases h : hasNl s = true
+  · simp only [h, if_true]
+    have hany : s.reverse.any (· == nl) = true := by
+      simp [hasNl] at h; simpa using h
+    have hk := idxOf_lt_of_any _ _ hany
+    have hg := idxOf_get _ _ hk
+    have ht := idxOf_take_not (· == nl) s.reverse
+    generalize idxOf (· == nl) s.reverse = k at hk hg ht
+    simp only [List.length_reverse] at hk
+    refine ⟨by omega, ?_, ?_⟩
+    · rw [List.getElem_reverse] at hg
+      simp at hg
+      rw [List.getElem?_eq_getElem (by omega)]
+      simp [hg]
+    · have e : s.length - 1 - k + 1 = s.length - k := by omega
+      rw [e]
+      rw [List.take_reverse] at ht
+      simp only [countNl]
+      apply List.count_eq_zero.2
+      intro hm
+      have := ht nl (by simpa using hm)
+      simp at this
+  · simp only [h]
+    simp [hasNl] at h
+    simp [countNl, List.count_eq_zero.2 h]
 
 /-- `(line, col)` is the unique pair with: `line - 1` line breaks before `pos`, the line
     starts at `lineStart`, and `pos = lineStart + col - 1` with no line break in between -/
@@ -56,38 +194,519 @@ theorem lineCol_correct (src : Str) (pos : Nat) (hp : pos ≤ src.length) :
     lineOf src pos = countNl (src.take pos) + 1 ∧
     countNl ((src.take pos).drop (lineStart src pos)) = 0 ∧
     (lineStart src pos = 0 ∨ src.getD (lineStart src pos - 1) ' ' = nl) := by
-  sorry
+  refine ⟨?_, rfl, rfl, ?_⟩
+  all_goals
+    have hs := rfindNl_spec (src.take pos)
+    have hl : (src.take pos).length = pos := by simp [hp]
+    unfold lineStart
+    split at hs
+    · rename_i i hi
+      simp only [hi]
+      obtain ⟨h1, h2, h3⟩ := hs
+      first
+      | omega
+      | refine ⟨h3, Or.inr ?_⟩
+        rw [List.getElem?_take_of_lt (by omega)] at h2
+        simp [List.getD_eq_getElem?_getD, h2]
+    · rename_i hi
+      simp only [hi]
+      first
+      | omega
+      | simpa using hs
 
 /-! ### multi-language splitter -/
+
+theorem closeSec_txt (s : SecState) :
+    ((closeSec s).map (·.txt)).flatten = (s.secs.map (·.txt)).flatten ++ (getTxtPos s.cur).1 := by
+  unfold closeSec
+  simp only []
+  split
+  · rename_i h
+    simp at h
+    simp [h]
+  · simp
+
+theorem closeSec_pos (s : SecState) :
+    ((closeSec s).map (·.pos)).flatten = (s.secs.map (·.pos)).flatten ++ (getTxtPos s.cur).2 := by
+  unfold closeSec
+  simp only []
+  split
+  · rename_i h
+    simp at h
+    have := getTxtPos_length s.cur
+    rw [h] at this
+    have h2 : (getTxtPos s.cur).2 = [] := by
+      apply List.eq_nil_of_length_eq_zero; simpa using this.symm
+    simp [h2]
+  · simp
+
+theorem filter_nonlang_cons_lang (t : Tok) (ts : List Tok) (h : isLangTok t = true) :
+    (t :: ts).filter (fun t => !isLangTok t) = ts.filter (fun t => !isLangTok t) := by
+  simp [h]
+
+theorem sections_conserve_gen (toks : List Tok) (s : SecState) :
+    ((closeSec (toks.foldl secStep s)).map (·.txt)).flatten =
+      (s.secs.map (·.txt)).flatten ++ (getTxtPos s.cur).1 ++
+        (getTxtPos (toks.filter (fun t => !isLangTok t))).1 ∧
+    ((closeSec (toks.foldl secStep s)).map (·.pos)).flatten =
+      (s.secs.map (·.pos)).flatten ++ (getTxtPos s.cur).2 ++
+        (getTxtPos (toks.filter (fun t => !isLangTok t))).2 := by
+  induction toks generalizing s with
+  | nil => simp [closeSec_txt, closeSec_pos, getTxtPos]
+  | cons t ts ih =>
+    simp only [List.foldl_cons]
+    have := ih (secStep s t)
+    rw [this.1, this.2]
+    unfold secStep
+    split
+    · rename_i l back hard brk hk
+      have hl : isLangTok t = true := by simp [isLangTok, hk]
+      rw [filter_nonlang_cons_lang t ts hl]
+      split
+      · exact ⟨rfl, rfl⟩
+      · simp [closeSec_txt, closeSec_pos, getTxtPos]
+    · rename_i hk
+      have hl : isLangTok t = false := by
+        unfold isLangTok; split
+        · rename_i l b h k hk'; exact absurd hk' (hk l b h k)
+        · rfl
+      simp [hl, getTxtPos_append, getTxtPos]
 
 /-- sectioning conserves text and positions: the sections, in order, concatenate to
     `get_txt_pos` of the non-language tokens -/
 theorem sections_conserve (toks : List Tok) (main : Str) :
     ((sections toks main).map (·.txt)).flatten = (getTxtPos (toks.filter (fun t => !isLangTok t))).1 ∧
     ((sections toks main).map (·.pos)).flatten = (getTxtPos (toks.filter (fun t => !isLangTok t))).2 := by
-  sorry
+  unfold sections
+  have := sections_conserve_gen toks { stack := [main], swBack := false, swBrk := false, cur := [], secs := [] }
+  simpa [getTxtPos] using this
+
+def SecWF (s : Sec) : Prop := s.txt.length = s.pos.length ∧ s.txt ≠ []
+
+theorem closeSec_wf (s : SecState) (h : ∀ x ∈ s.secs, SecWF x) : ∀ x ∈ closeSec s, SecWF x := by
+  unfold closeSec
+  simp only []
+  split
+  · exact h
+  · rename_i hne
+    intro x hx
+    simp only [List.mem_append, List.mem_singleton] at hx
+    rcases hx with hx | rfl
+    · exact h x hx
+    · exact ⟨getTxtPos_length _, by simpa using hne⟩
+
+theorem secStep_wf (s : SecState) (t : Tok) (h : ∀ x ∈ s.secs, SecWF x) :
+    ∀ x ∈ (secStep s t).secs, SecWF x := by
+  unfold secStep
+  split
+  · split
+    · exact h
+    · exact closeSec_wf s h
+  · exact h
+
+theorem foldl_secStep_wf (toks : List Tok) (s : SecState) (h : ∀ x ∈ s.secs, SecWF x) :
+    ∀ x ∈ (toks.foldl secStep s).secs, SecWF x := by
+  induction toks generalizing s with
+  | nil => exact h
+  | cons t ts ih => exact ih _ (secStep_wf s t h)
 
 /-- every section has text and positions of equal length and is non-empty -/
 theorem sections_wf (toks : List Tok) (main : Str) :
     ∀ s ∈ sections toks main, s.txt.length = s.pos.length ∧ s.txt ≠ [] := by
-  sorry
+  unfold sections
+  apply closeSec_wf
+  apply foldl_secStep_wf
+  simp
+
+def SecGood (P : List Nat) (s : Sec) : Prop :=
+  s.txt.length = s.pos.length ∧ s.txt ≠ [] ∧ ∀ p ∈ s.pos, p ∈ P
+
+theorem appendPlaceholder_good (P : List Nat) (lc lc' : LangChange) (sec incl sec' : Sec)
+    (hs : SecGood P sec) (hi : SecGood P incl)
+    (h : appendPlaceholder lc sec incl = some (sec', lc')) : SecGood P sec' ∧ sec'.lang = sec.lang := by
+  obtain ⟨hs1, hs2, hs3⟩ := hs
+  obtain ⟨hi1, hi2, hi3⟩ := hi
+  unfold appendPlaceholder at h
+  split at h
+  · simp only [Option.some.injEq, Prod.mk.injEq] at h
+    obtain ⟨rfl, rfl⟩ := h
+    refine ⟨⟨by simp [hs1, hi1], by simp [hs2], ?_⟩, rfl⟩
+    intro p hp
+    simp only [List.mem_append] at hp
+    rcases hp with hp | hp
+    · exact hs3 p hp
+    · exact hi3 p hp
+  · simp only [] at h
+    split at h
+    · simp at h
+    · split at h
+      · simp at h
+      · split at h
+        · rename_i p c0 cl p0 pl hp hc0 hcl hp0 hpl
+          simp only [Option.some.injEq, Prod.mk.injEq] at h
+          obtain ⟨rfl, rfl⟩ := h
+          have mp : p ∈ P := hi3 p (List.mem_of_getElem? hp)
+          have mp0 : p0 ∈ P := hi3 p0 (List.mem_of_head? hp0)
+          have mpl : pl ∈ P := hi3 pl (List.mem_of_getLast? hpl)
+          refine ⟨⟨?_, by simp [hs2], ?_⟩, rfl⟩
+          · simp only [List.length_append, List.length_replicate, hs1]
+            split <;> split <;> simp
+          · intro q hq
+            simp only [List.mem_append, List.mem_replicate] at hq
+            rcases hq with ((hq | hq) | hq) | hq
+            · exact hs3 q hq
+            · split at hq <;> simp at hq; subst hq; exact mp0
+            · rw [hq.2]; exact mp
+            · split at hq <;> simp at hq; subst hq; exact mpl
+        · simp at h
+
+theorem rotate_ne_nil (l : List Str) (h : l ≠ []) : rotate l ≠ [] := by
+  cases l with
+  | nil => exact absurd rfl h
+  | cons a as => simp [rotate]
+
+theorem lcSet_keys (lc : LangChange) (k : Str) (v : List Str) :
+    (lcSet lc k v).map (·.1) = lc.map (·.1) := by
+  unfold lcSet
+  rw [List.map_map]
+  apply List.map_congr_left
+  intro e _
+  simp only [Function.comp]
+  split
+  · rename_i h; simp at h; simp [h]
+  · rfl
+
+theorem lcSet_ok (lc : LangChange) (k : Str) (v : List Str) (hv : v ≠ []) (h : LangChangeOk lc) :
+    LangChangeOk (lcSet lc k v) := by
+  refine ⟨?_, ?_⟩
+  · intro e he
+    unfold lcSet at he
+    simp only [List.mem_map] at he
+    obtain ⟨e0, he0, rfl⟩ := he
+    split
+    · exact hv
+    · exact h.1 e0 he0
+  · rw [lcSet_keys]; exact h.2
+
+theorem checkParserLang_mem (known : List Str) (lang : Str) (h : "en".toList ∈ known) :
+    checkParserLang known lang ∈ known := by
+  unfold checkParserLang
+  simp only []
+  split
+  · rename_i hc; simpa using hc
+  · exact h
+
+theorem lcGet_some (lc : LangChange) (k : Str) (hk : k ∈ lc.map (·.1)) (h : ∀ e ∈ lc, e.2 ≠ []) :
+    ∃ v, lcGet lc k = some v ∧ v ≠ [] := by
+  unfold lcGet
+  cases hf : lc.find? (·.1 == k) with
+  | none =>
+    simp only [List.find?_eq_none] at hf
+    simp only [List.mem_map] at hk
+    obtain ⟨e, he, rfl⟩ := hk
+    exact absurd (by simp) (hf e he)
+  | some e =>
+    exact ⟨e.2, rfl, h e (List.mem_of_find?_eq_some hf)⟩
+
+theorem idxOf_lt_of_not_blank (s : Str) (h : isBlank s = false) :
+    idxOf (fun c => !isSpace c) s < s.length := by
+  apply idxOf_lt_of_any
+  unfold isBlank at h
+  rw [← Bool.not_eq_true, List.all_eq_true] at h
+  simp only [List.any_eq_true]
+  simp at h
+  obtain ⟨x, hx, hx2⟩ := h
+  exact ⟨x, hx, by simp [hx2]⟩
+
+theorem appendPlaceholder_some (P : List Nat) (lc : LangChange) (hlc : LangChangeOk lc) (sec incl : Sec)
+    (hi : SecGood P incl) :
+    ∃ sec' lc', appendPlaceholder lc sec incl = some (sec', lc') ∧ LangChangeOk lc' := by
+  obtain ⟨hi1, hi2, hi3⟩ := hi
+  unfold appendPlaceholder
+  split
+  · exact ⟨_, _, rfl, hlc⟩
+  · rename_i hb
+    simp only []
+    have hk := checkParserLang_mem (lc.map (·.1)) sec.lang hlc.2
+    obtain ⟨v, hv, hvne⟩ := lcGet_some lc _ hk hlc.1
+    rw [hv]
+    simp only []
+    have hr := rotate_ne_nil v hvne
+    obtain ⟨r0, hr0⟩ : ∃ r0, (rotate v).head? = some r0 := by
+      cases hrv : rotate v with
+      | nil => exact absurd hrv hr
+      | cons a as => exact ⟨a, rfl⟩
+    rw [hr0]
+    simp only []
+    have hst := idxOf_lt_of_not_blank incl.txt (by simpa using hb)
+    rw [hi1] at hst
+    have hpne : incl.pos ≠ [] := by
+      intro h0; rw [h0] at hst; simp at hst
+    rw [List.getElem?_eq_getElem hst, List.head?_eq_some_head hi2, List.getLast?_eq_some_getLast hi2,
+      List.head?_eq_some_head hpne, List.getLast?_eq_some_getLast hpne]
+    exact ⟨_, _, rfl, lcSet_ok _ _ _ hr hlc⟩
+
+theorem SecGood_merge (P : List Nat) (a b : Sec) (ha : SecGood P a) (hb : SecGood P b) :
+    SecGood P { a with txt := a.txt ++ b.txt, pos := a.pos ++ b.pos } := by
+  obtain ⟨a1, a2, a3⟩ := ha
+  obtain ⟨b1, b2, b3⟩ := hb
+  refine ⟨by simp [a1, b1], by simp [a2], ?_⟩
+  intro p hp
+  simp only [List.mem_append] at hp
+  rcases hp with hp | hp
+  · exact a3 p hp
+  · exact b3 p hp
+
+theorem forall_mem_snoc {α} {Q : α → Prop} {l : List α} {a : α} (hl : ∀ x ∈ l, Q x) (ha : Q a) :
+    ∀ x ∈ l ++ [a], Q x := by
+  intro x hx
+  simp only [List.mem_append, List.mem_singleton] at hx
+  rcases hx with hx | rfl
+  · exact hl x hx
+  · exact ha
+
+theorem joinLoop_nil (t f : Nat) (lc : LangChange) (out : List Sec) :
+    joinLoop t f lc [] out = some (out, lc) := by
+  cases f <;> rfl
+
+theorem joinLoop_one (t f : Nat) (lc : LangChange) (s0 : Sec) (out : List Sec) :
+    joinLoop t (f+1) lc [s0] out = some (out ++ [s0], lc) := by
+  rw [joinLoop, joinLoop_nil]
+
+def joinCond (t : Nat) (s0 s1 : Sec) (rest2 : List Sec) : Bool :=
+  !s1.brk && !s1.back
+    && (match rest2 with | [] => true | s2 :: _ => s0.lang == s2.lang)
+    && checkLangSection t s1
+
+theorem joinLoop_cons2 (t f : Nat) (lc : LangChange) (s0 s1 : Sec) (rest2 out : List Sec) :
+    joinLoop t (f+1) lc (s0 :: s1 :: rest2) out =
+      if joinCond t s0 s1 rest2 then
+        match appendPlaceholder lc s0 s1 with
+        | none => none
+        | some (s0', lc') =>
+          match rest2 with
+          | [] => joinLoop t f lc' [s0'] (out ++ [s1])
+          | s2 :: rest3 =>
+            joinLoop t f lc' ({ s0' with txt := s0'.txt ++ s2.txt, pos := s0'.pos ++ s2.pos } :: rest3) (out ++ [s1])
+      else joinLoop t f lc (s1 :: rest2) (out ++ [s0]) := by
+  rfl
+
+theorem joinLoop_good (P : List Nat) (thresh fuel : Nat) (lc : LangChange) (work out : List Sec)
+    (hw : ∀ s ∈ work, SecGood P s) (ho : ∀ s ∈ out, SecGood P s)
+    (res : List Sec) (lc' : LangChange) (h : joinLoop thresh fuel lc work out = some (res, lc')) :
+    ∀ s ∈ res, SecGood P s := by
+  induction fuel generalizing lc work out with
+  | zero =>
+    cases work with
+    | nil => simp [joinLoop] at h; rw [← h.1]; exact ho
+    | cons s0 rest => simp [joinLoop] at h
+  | succ fuel ih =>
+    cases work with
+    | nil => simp [joinLoop] at h; rw [← h.1]; exact ho
+    | cons s0 rest =>
+      have h0 : SecGood P s0 := hw s0 (by simp)
+      cases rest with
+      | nil =>
+        rw [joinLoop_one] at h
+        simp only [Option.some.injEq, Prod.mk.injEq] at h
+        rw [← h.1]
+        exact forall_mem_snoc ho h0
+      | cons s1 rest2 =>
+        have h1 : SecGood P s1 := hw s1 (by simp)
+        rw [joinLoop_cons2] at h
+        by_cases hc : joinCond thresh s0 s1 rest2 = true
+        · rw [if_pos hc] at h
+          cases hap : appendPlaceholder lc s0 s1 with
+          | none => rw [hap] at h; simp at h
+          | some r =>
+            obtain ⟨s0', lc1⟩ := r
+            rw [hap] at h
+            simp only [] at h
+            have hg := (appendPlaceholder_good P lc lc1 s0 s1 s0' h0 h1 hap).1
+            cases rest2 with
+            | nil =>
+              simp only [] at h
+              refine ih lc1 [s0'] _ ?_ (forall_mem_snoc ho h1) h
+              intro s hs; simp at hs; subst hs; exact hg
+            | cons s2 rest3 =>
+              simp only [] at h
+              have h2 : SecGood P s2 := hw s2 (by simp)
+              refine ih lc1 _ _ ?_ (forall_mem_snoc ho h1) h
+              intro s hs
+              simp only [List.mem_cons] at hs
+              rcases hs with rfl | hs
+              · exact SecGood_merge P s0' s2 hg h2
+              · exact hw s (by simp [hs])
+        · rw [if_neg hc] at h
+          refine ih lc _ _ ?_ (forall_mem_snoc ho h0) h
+          intro s hs; exact hw s (by simp [hs])
+
+theorem joinLoop_total (P : List Nat) (thresh fuel : Nat) (lc : LangChange) (work out : List Sec)
+    (hlc : LangChangeOk lc) (hw : ∀ s ∈ work, SecGood P s) (hf : work.length ≤ fuel) :
+    (joinLoop thresh fuel lc work out).isSome = true := by
+  induction fuel generalizing lc work out with
+  | zero =>
+    cases work with
+    | nil => simp [joinLoop]
+    | cons s0 rest => simp at hf
+  | succ fuel ih =>
+    cases work with
+    | nil => simp [joinLoop]
+    | cons s0 rest =>
+      have h0 : SecGood P s0 := hw s0 (by simp)
+      cases rest with
+      | nil => rw [joinLoop_one]; rfl
+      | cons s1 rest2 =>
+        have h1 : SecGood P s1 := hw s1 (by simp)
+        rw [joinLoop_cons2]
+        by_cases hc : joinCond thresh s0 s1 rest2 = true
+        · rw [if_pos hc]
+          obtain ⟨s0', lc1, hap, hlc1⟩ := appendPlaceholder_some P lc hlc s0 s1 h1
+          have hg := (appendPlaceholder_good P lc lc1 s0 s1 s0' h0 h1 hap).1
+          rw [hap]
+          simp only []
+          cases rest2 with
+          | nil =>
+            simp only []
+            refine ih lc1 [s0'] _ hlc1 ?_ (by simp only [List.length_cons, List.length_nil] at hf ⊢; omega)
+            intro s hs; simp at hs; subst hs; exact hg
+          | cons s2 rest3 =>
+            simp only []
+            have h2 : SecGood P s2 := hw s2 (by simp)
+            refine ih lc1 _ _ hlc1 ?_ (by simp only [List.length_cons] at hf ⊢; omega)
+            intro s hs
+            simp only [List.mem_cons] at hs
+            rcases hs with rfl | hs
+            · exact SecGood_merge P s0' s2 hg h2
+            · exact hw s (by simp [hs])
+        · rw [if_neg hc]
+          refine ih lc _ _ hlc ?_ (by simp only [List.length_cons] at hf ⊢; omega)
+          intro s hs; exact hw s (by simp [hs])
+
+theorem mem_allParts (p : Parts) (tp : Str × List Nat) :
+    tp ∈ allParts p ↔ ∃ e ∈ p, tp ∈ e.2 := by
+  simp [allParts, List.mem_flatten]
+  constructor
+  · rintro ⟨l, ⟨a, h1⟩, h2⟩; exact ⟨a, l, h1, h2⟩
+  · rintro ⟨a, l, h1, h2⟩; exact ⟨l, ⟨a, h1⟩, h2⟩
+
+theorem groupParts_mem (ss : List Sec) (acc : Parts) :
+    ∀ tp ∈ allParts (groupParts ss acc), tp ∈ allParts acc ∨ ∃ s ∈ ss, tp = (s.txt, s.pos) := by
+  induction ss generalizing acc with
+  | nil => intro tp h; exact Or.inl h
+  | cons s ss ih =>
+    intro tp h
+    unfold groupParts at h
+    split at h
+    · rcases ih _ tp h with h' | ⟨s', hs', e⟩
+      · rw [mem_allParts] at h'
+        obtain ⟨e, he, hte⟩ := h'
+        simp only [List.mem_map] at he
+        obtain ⟨e0, he0, rfl⟩ := he
+        split at hte
+        · simp only [List.mem_append, List.mem_singleton] at hte
+          rcases hte with hte | rfl
+          · exact Or.inl ((mem_allParts _ _).2 ⟨e0, he0, hte⟩)
+          · exact Or.inr ⟨s, by simp, rfl⟩
+        · exact Or.inl ((mem_allParts _ _).2 ⟨e0, he0, hte⟩)
+      · exact Or.inr ⟨s', by simp [hs'], e⟩
+    · rcases ih _ tp h with h' | ⟨s', hs', e⟩
+      · rw [mem_allParts] at h'
+        obtain ⟨e, he, hte⟩ := h'
+        simp only [List.mem_append, List.mem_singleton] at he
+        rcases he with he | rfl
+        · exact Or.inl ((mem_allParts _ _).2 ⟨e, he, hte⟩)
+        · simp only [List.mem_singleton] at hte
+          exact Or.inr ⟨s, by simp, hte⟩
+      · exact Or.inr ⟨s', by simp [hs'], e⟩
+
+theorem groupParts_nodup (ss : List Sec) (acc : Parts) (h : (acc.map (·.1)).Nodup) :
+    ((groupParts ss acc).map (·.1)).Nodup := by
+  induction ss generalizing acc with
+  | nil => exact h
+  | cons s ss ih =>
+    unfold groupParts
+    split
+    · apply ih
+      have : (acc.map (fun e => if e.1 == s.lang then (e.1, e.2 ++ [(s.txt, s.pos)]) else e)).map (·.1)
+          = acc.map (·.1) := by
+        rw [List.map_map]
+        apply List.map_congr_left
+        intro e _
+        simp only [Function.comp]
+        split <;> rfl
+      rw [this]; exact h
+    · rename_i hn
+      apply ih
+      simp only [List.map_append, List.map_cons, List.map_nil]
+      rw [List.nodup_append]
+      refine ⟨h, by simp, ?_⟩
+      intro a ha b hb
+      simp only [List.mem_singleton] at hb
+      subst hb
+      intro hab
+      subst hab
+      apply hn
+      simp only [List.mem_map] at ha
+      obtain ⟨e, he, hee⟩ := ha
+      simp only [List.any_eq_true]
+      exact ⟨e, he, by simp [hee]⟩
+
+theorem sections_good (toks : List Tok) (main : Str) :
+    ∀ s ∈ sections toks main, SecGood (getTxtPos (toks.filter (fun t => !isLangTok t))).2 s := by
+  intro s hs
+  have hw := sections_wf toks main s hs
+  refine ⟨hw.1, hw.2, ?_⟩
+  intro p hp
+  rw [← (sections_conserve toks main).2]
+  simp only [List.mem_flatten, List.mem_map]
+  exact ⟨s.pos, ⟨s, hs, rfl⟩, hp⟩
 
 /-- the splitter never raises when the language-change table is usable -/
 theorem getTxtPosML_total (toks : List Tok) (main : Str) (thresh : Nat) (lc : LangChange)
     (h : LangChangeOk lc) : (getTxtPosML toks main thresh lc).isSome = true := by
-  sorry
+  unfold getTxtPosML
+  simp only []
+  have := joinLoop_total _ thresh (sections toks main).length lc (sections toks main) [] h
+    (sections_good toks main) (Nat.le_refl _)
+  cases hj : joinLoop thresh (sections toks main).length lc (sections toks main) [] with
+  | none => rw [hj] at this; simp at this
+  | some r => rfl
 
 /-- every part has equal lengths, and all its positions are positions of the token stream -/
 theorem getTxtPosML_parts (toks : List Tok) (main : Str) (thresh : Nat) (lc lc' : LangChange) (parts : Parts)
     (h : getTxtPosML toks main thresh lc = some (parts, lc')) :
     ∀ tp ∈ allParts parts, tp.1.length = tp.2.length ∧
       ∀ p ∈ tp.2, p ∈ (getTxtPos (toks.filter (fun t => !isLangTok t))).2 := by
-  sorry
+  unfold getTxtPosML at h
+  simp only [] at h
+  cases hj : joinLoop thresh (sections toks main).length lc (sections toks main) [] with
+  | none => rw [hj] at h; simp at h
+  | some r =>
+    obtain ⟨out, lc1⟩ := r
+    rw [hj] at h
+    simp only [Option.some.injEq, Prod.mk.injEq] at h
+    obtain ⟨rfl, rfl⟩ := h
+    have hg := joinLoop_good _ thresh _ lc _ [] (sections_good toks main) (by simp) out lc1 hj
+    intro tp htp
+    rcases groupParts_mem out [] tp htp with h' | ⟨s, hs, rfl⟩
+    · simp [allParts] at h'
+    · have := hg s hs
+      exact ⟨this.1, this.2.2⟩
 
 /-- parts are grouped by language, each language once, in order of first appearance -/
 theorem getTxtPosML_langs_nodup (toks : List Tok) (main : Str) (thresh : Nat) (lc lc' : LangChange) (parts : Parts)
     (h : getTxtPosML toks main thresh lc = some (parts, lc')) :
     (parts.map (·.1)).Nodup := by
-  sorry
+  unfold getTxtPosML at h
+  simp only [] at h
+  cases hj : joinLoop thresh (sections toks main).length lc (sections toks main) [] with
+  | none => rw [hj] at h; simp at h
+  | some r =>
+    obtain ⟨out, lc1⟩ := r
+    rw [hj] at h
+    simp only [Option.some.injEq, Prod.mk.injEq] at h
+    obtain ⟨rfl, rfl⟩ := h
+    exact groupParts_nodup out [] (by simp)
 
 end Yalafi
